@@ -53,6 +53,8 @@ pub(crate) struct Observer<K>
 where
     for<'a> K: Key<'a>,
 {
+    #[cfg(feature = "pearl_verif")]
+    verif: Arc<crate::verif::BgCounters>,
     state: ObserverState<K>
 }
 
@@ -72,6 +74,8 @@ where
 {
     pub(crate) fn new(inner: Arc<Inner<K>>) -> Self {
         Self {
+            #[cfg(feature = "pearl_verif")]
+            verif: inner.verif.clone(),
             state: ObserverState::Created(inner)
         }
     }
@@ -153,12 +157,16 @@ where
     async fn send_msg(&self, msg: Msg) {
         if let ObserverState::Running(sender, _) = &self.state {
             let optype = msg.optype.clone();
+            #[cfg(feature = "pearl_verif")]
+            let mut _verif_send = self.verif.send_guard();
             if let Err(e) = sender.send(msg).await {
                 error!(
                     "Can't send message to worker:\nOperation: {:?}\nReason: {:?}",
                     optype, e
                 );
             }
+            #[cfg(feature = "pearl_verif")]
+            _verif_send.enqueued();
         } else {
             error!("storage observer task was not launched");
         }
